@@ -247,9 +247,9 @@ def run(ctx, res):
         if x["status"] in ("guarded", "chain-guarded"):
             res.ok("BLOCKING", x["key"], x["status"])
         elif x["key"] in allow:
-            if x["key"] == "eval::read_src # - # std::fs::read" and not S.snippet_import_guard(P)[0]:
-                res.bad("BLOCKING", x["key"] + " # allow-shape", "the allowlisted file read relies on check_snippet refusing file imports in "
-                        "sandbox mode, which no longer has its shape: %s" % S.snippet_import_guard(P)[1],
+            if x["key"] == "eval::read_src # - # std::fs::read" and not S.read_src_regular_guard(P)[0]:
+                res.bad("BLOCKING", x["key"] + " # allow-shape", "the allowlisted file read can only be excused as non-blocking while read_src refuses "
+                        "everything but regular files (FIFOs and devices such as /dev/stdin block for ever): %s" % S.read_src_regular_guard(P)[1],
                         "%s:%d" % (x["term"]["span"]["file"], x["term"]["span"]["line"]))
                 continue
             res.ok("BLOCKING", x["key"], "allowlisted: " + allow[x["key"]][:60])
